@@ -267,7 +267,13 @@ func (s *sshSimulatorService) Handle(ctx context.Context, conn net.Conn) error {
 			continue
 		}
 
-		func() {
+		// the session is served beside this loop, and its shell beside the
+		// request loop: channel opens and requests that arrive meanwhile have
+		// to be taken, once 16 of them are queued the connection's reader
+		// blocks and sees neither data, the client's close nor the deadline
+		go func() {
+			defer recoverSession(id.String())
+
 			for req := range requests {
 				log.Debugf("Request: %s %s %s %s\n", channel, req.Type, req.WantReply, req.Payload)
 
@@ -358,8 +364,9 @@ func (s *sshSimulatorService) Handle(ctx context.Context, conn net.Conn) error {
 					options...,
 				))
 
-				func() {
-					if req.Type == "shell" {
+				if req.Type == "shell" {
+					go func() {
+						defer recoverSession(id.String())
 						defer channel.Close()
 
 						// should only be started in req.Type == shell
@@ -402,18 +409,22 @@ func (s *sshSimulatorService) Handle(ctx context.Context, conn net.Conn) error {
 
 							term.Write([]byte(fmt.Sprintf("%s: command not found\n", line)))
 						}
-					} else if req.Type == "exec" {
-						defer channel.Close()
-
-						channel.Write([]byte(fmt.Sprintf("%s: command not found\n", "ls")))
-						channel.SendRequest("exit-status", false, []byte{0, 0, 0, 0})
-						return
-					} else {
-					}
-				}()
+					}()
+				} else if req.Type == "exec" {
+					channel.Write([]byte(fmt.Sprintf("%s: command not found\n", "ls")))
+					channel.SendRequest("exit-status", false, []byte{0, 0, 0, 0})
+					channel.Close()
+				}
 			}
 		}()
 	}
 
 	return nil
+}
+
+// recoverSession keeps a panic in one session's goroutine from ending the process
+func recoverSession(id string) {
+	if r := recover(); r != nil {
+		log.Errorf("ssh session %s: %v", id, r)
+	}
 }
